@@ -156,3 +156,21 @@ package include
 //@ trusted (*ResolvedJournal).AllTransactions
 //@   ensures len(result) == treeLen(r.Primary, r.Files, r.FileOrder) && (len(result) == 0 || fresh(result))
 //@   ensures forall i int :: {result[i]} 0 <= i && i < len(result) ==> result[i] == treeAt(r.Primary, r.Files, r.FileOrder, i)
+
+// What the body of AllTransactions is proved to do (its callers use the trusted naming contract above): the list has the
+// length of the primary journal's transactions plus those of every listed file that is present, and starts with the
+// primary journal's transactions, element by element. flen reads lengths only. The element-wise statement for the file
+// blocks is not proved (undecided C20).
+//@ specdef tlen(p *ast.Journal) int := ite(p == nil, 0, len(p.Transactions))
+//@ specdef flen(files map[string]*ast.Journal, order []string, n int) int := ite(n <= 0, 0, flen(files, order, n - 1) + ite(has(files, order[n - 1]) && len(files[order[n - 1]].Transactions) > 0, len(files[order[n - 1]].Transactions), 0))
+//@ lemma flen_nonneg(files map[string]*ast.Journal, order []string, n int) induct n := {flen(files, order, n)} flen(files, order, n) >= 0
+//@ pred TreePrimary(xs, p) := forall i int :: {xs[i]} 0 <= i && i < tlen(p) ==> xs[i] == p.Transactions[i]
+//@ bodycheck (*ResolvedJournal).AllTransactions
+//@   props C20
+//@   requires r != nil && (forall p string :: has(r.Files, p) ==> r.Files[p] != nil)
+//@   ensures [C20:body_length] len(result) == tlen(r.Primary) + flen(r.Files, r.FileOrder, len(r.FileOrder))
+//@   ensures [C20:body_primary_first] TreePrimary(result, r.Primary)
+//@   loop 1 invariant 0 - 1 <= rangeindex && rangeindex <= len(r.FileOrder) - 1 && (len(result) == 0 || fresh(result))
+//@   loop 1 invariant len(result) == tlen(r.Primary) + flen(r.Files, r.FileOrder, rangeindex + 1)
+//@   loop 1 invariant TreePrimary(result, r.Primary)
+//@   loop 1 decreases len(r.FileOrder) - rangeindex
